@@ -25,6 +25,15 @@ CFG = {
                   "(4) A Load entry whose deadline falls inside the Load's own clock bracket, over a key that already has an abstract entry, makes "
                   "that key 'Wild' in the interval checker (every observation on it is accepted until the next definite store/hit/export): "
                   "sound for no-false-alarm, blind for that key in that rare window; decided_b rejects such traces as undecided. "
+                  "(7) CONCURRENT calls are only sampled (PARTIAL): every run executes ~1900 race rounds on shared caches (sweeper off): a key holds an entry "
+                  "that has expired but was not evicted, then 1-4 goroutines call GetWithExpire(k) repeatedly while 1-3 goroutines each store once "
+                  "(SetNoExpire / Set with a long, wrapping or no TTL / SetDefault / SetIfAbsent / Replace, unique values), all released from a spin barrier; "
+                  "after the join the key is read again. The calls overlap, so no sequential trace exists; Check.CRace judges what every linearisation has "
+                  "in common: a racing Get misses or returns a store of the round that took effect, the epilogue Get returns such a store and may miss only "
+                  "when no store took effect (nothing deletes, nothing stored can expire): 'a value stored without expiry disappears without Delete/Clear' "
+                  "is kind 2. C12_race_complete proves that this judgement never rejects a round that some linearisation through the reference semantics "
+                  "explains (no false alarm), C12_race_ok_perm that the listing order is irrelevant; it is NOT a proof about the Go locking (that is C11's "
+                  "subject) and says nothing about schedules that were not sampled. Count and Export after each batch are compared with the epilogue reads. "
                   "(6) int64 overflow of the deadline is modelled as the runtime does it (observed on Go 1.23: time.Now().Add(d).UnixNano() wraps, "
                   "Time.Add does not saturate for these d): a TTL with now + TTL >= 2^63 (more than ~235 years today) stores a NEGATIVE Expire; the code "
                   "treats it as never expiring (isVisit = Expire > 0 is false, the negative score sits in the index below the sweep range [0, now], "
@@ -40,7 +49,7 @@ CFG = {
     "theorems": [("C12.Props", [
         "C12_refines", "C12_index", "C12_get_live_generic", "C12_get_live", "C12_untimed_survive", "C12_sweep_exact",
         "C12_setifabsent", "C12_replace", "C12_count", "C12_roundtrip", "C12_load", "C12_load_multi_instant", "C12_f64_round", "C12_wrap_negative", "C12_wrapped_never_expires", "C12_admissible_complete",
-        "C12_kind2_iff_inadmissible", "C12_decided_sound_partial"])],
+        "C12_kind2_iff_inadmissible", "C12_decided_sound_partial", "C12_race_complete", "C12_race_ok_perm"])],
     "trusted": [
         "every call of one goroutine reads the clock inside the two wall-clock readings recorded around it (traces whose wall clock "
         "disagrees with the monotonic clock by > 1 ms or steps backwards are dropped and counted, never judged)",
